@@ -277,6 +277,22 @@ def open_deposit_mint_by_collat_rate(self, deposit_eth_amount, collateral_rate=C
     return self.open_deposit_mint(deposit_eth_amount, n, vault_key, uni_position)
 '''
 
+# the long side trades oSQTH on the Uniswap pool: an ETH budget is converted with the bar's oSQTH price
+REF_BUY_SQTH = '''
+def buy_squeeth(self, osqth_amount=None, eth_amount=None):
+    if osqth_amount is None and eth_amount is not None:
+        osqth_amount = eth_amount / self._market_status.data["OSQTH"]
+    r = self._squeeth_uni_pool.buy(osqth_amount)
+    return r[0], r[1], r[2]
+'''
+REF_SELL_SQTH = '''
+def sell_squeeth(self, osqth_amount=None, eth_amount=None):
+    if osqth_amount is None and eth_amount is not None:
+        osqth_amount = eth_amount / self._market_status.data["OSQTH"]
+    r = self._squeeth_uni_pool.sell(osqth_amount)
+    return r[0], r[1], r[2]
+'''
+
 WALLET = ["subtract_from_balance", "add_to_balance", "_record_action", "_check_vault", "_withdraw_collateral",
           "deposit", "_deposit_uni_position", "transfer_position_in", "transfer_position_out", "liquidate", "_reduce_debt",
           "_liquidate", "_redeem_uni_token", "_get_reduce_debt_result_in_vault", "open_deposit_mint"]
@@ -386,6 +402,8 @@ def run(model, tier="quick"):
                   WALLET, opaque=OPQ + ["_get_fee", "collateral_amount_to_osqth"], ordered=True)
     effects_check(res, model, F + "open_deposit_mint_by_collat_rate", REF_OPEN_BY_RATE,
                   "mint amount from the collateral ratio helper", WALLET, opaque=OPQ + ["collateral_amount_to_osqth"])
+    effects_check(res, model, F + "buy_squeeth", REF_BUY_SQTH, "long side: buy oSQTH on the pool (ETH budget / oSQTH price)", WALLET + ["buy", "sell"], opaque=OPQ)
+    effects_check(res, model, F + "sell_squeeth", REF_SELL_SQTH, "long side: sell oSQTH on the pool", WALLET + ["buy", "sell"], opaque=OPQ)
     res.floor("post_dominance_ops", post_dominance(model, res), 4)
     res.assumptions = ["norm_factor / price columns of the data are sane (data)",
                        "pandas label slicing data[a:b] is inclusive on both ends (7 one-minute rows for a 6 minute span)"]
